@@ -650,6 +650,10 @@ def classify_site(f, call, path_env):
     if au.const_int(a) == -1 and au.const_int(b) == 1:
         return 'VAR-NODE', None
     fn = f.node
+    if isinstance(L, ast.Attribute) and L.attr in ('var', 'level') and \
+            isinstance(L.value, ast.Name):
+        # the variable (or level) of a node of ANOTHER diagram
+        return 'MAPPED', L
     if isinstance(L, ast.Name):
         defs = [s for s in au.walk_no_defs(fn) if isinstance(
             s, (ast.Assign, ast.For)) and L.id in au.assigned_names(s)]
@@ -726,6 +730,31 @@ def r_rebuild(P, R):
                         'at the renamed levels, so a child can lie above '
                         f'level `{lv}` (unordered diagram)',
                         unit=f.unit.rel, line=c.lineno)
+                    continue
+            if kind == 'SAME-NODE' and isinstance(c.args[0], ast.Name):
+                # children that come from the recursion on cofactors taken
+                # at level Z belong under a node at level Z
+                zs = {au.src(tc.args[1]) for tc in au.calls_in(
+                    f.node, '_top_cofactor') if len(tc.args) > 1}
+                rec = {s.targets[0].id for s in au.walk_no_defs(f.node)
+                       if isinstance(s, ast.Assign) and isinstance(
+                           s.targets[0], ast.Name) and isinstance(
+                               s.value, ast.Call) and au.call_name(
+                                   s.value) == f.name}
+                kids = {a.id for a in c.args[1:3]
+                        if isinstance(a, ast.Name)}
+                if zs and kids and kids <= rec and \
+                        c.args[0].id not in zs:
+                    R.violation(
+                        'R-REBUILD', 'node-level-not-cofactor-level',
+                        f.qualname, 'find_or_add',
+                        f'`{au.short(c, 60)}` puts the results of the '
+                        f'recursion on the cofactors at level '
+                        f'{sorted(zs)} under a node at level '
+                        f'`{c.args[0].id}` (the level of one operand): '
+                        'when another operand starts higher, the '
+                        'children are at that very level and the diagram '
+                        'is not ordered', unit=f.unit.rel, line=c.lineno)
                     continue
             if kind in ('VAR-NODE', 'SAME-NODE', 'MIN-LEVEL'):
                 R.holds('R-REBUILD', f.qualname, what)
